@@ -50,6 +50,12 @@ type Exec struct {
 	allocSeq    map[string]int
 	allocN      int
 	scratches   []*scratchInfo
+	frameAllowed map[string][]lvLoc
+	frameProps   []string
+	frameOn      bool
+	retHook      func(val Val)
+	tailNext     bool
+	retGuards    []*Term
 }
 
 func newExec(e *Engine, unit *ssa.Function) *Exec {
@@ -75,6 +81,9 @@ func (x *Exec) oblige(kind, detail string, props []string, cond *Term, goalTxt s
 	x.obSeq[base]++
 	ob := &Obligation{Name: fmt.Sprintf("%s#%d", base, x.obSeq[base]), Kind: kind, Func: x.unitName, Props: props,
 		Pos: x.eng.pos(x.curPos), Goal: goalTxt, Guard: x.st.guard, Cond: cond}
+	if kind == "frame" || strings.HasSuffix(detail, "/frame") {
+		ob.NoAssume = true
+	}
 	x.sc.addOb(ob)
 }
 
@@ -239,6 +248,14 @@ func (x *Exec) allocObj(t types.Type, ptrT types.Type, zero bool) *PtrV {
 	if zero {
 		x.storeTo(p, x.zeroVal(t))
 	}
+	for _, g := range x.eng.specs.Ghosts {
+		gt := x.resolveType(g.Pkg, parseExpr(g.Type, "ghost"))
+		if gt != nil && types.Identical(gt, t) {
+			ft := x.resolveTypeStr(g.Pkg, g.GoType)
+			gp := &PtrV{T: types.NewPointer(ft), Kind: PObj, Base: ref, Root: ft, Global: "ghost:" + typeKey(t) + "." + g.Name}
+			x.storeTo(gp, x.zeroVal(ft))
+		}
+	}
 	return p
 }
 
@@ -273,6 +290,8 @@ type Frame struct {
 	scratch  *scratchInfo
 	scratchDepth int
 	skipPhis bool
+	loopEntry map[*ssa.BasicBlock]*loopEntryInfo
+	tail     bool // inlined in tail position of the unit: its returns are the unit's returns
 }
 
 type edgeState struct {
@@ -295,6 +314,7 @@ type loopInfo struct {
 type headSnapshot struct {
 	measure []*Term
 	st      *State
+	wkeys   []string
 }
 
 func (x *Exec) get(fr *Frame, v ssa.Value) Val {
@@ -429,19 +449,29 @@ func (x *Exec) mergeStates(es []*State) *State {
 	sort.Strings(ks)
 	for _, k := range ks {
 		init := &Term{quoteName("H0" + k), x.heapSort[k]}
-		var cur *Term
-		for i := len(es) - 1; i >= 0; i-- {
+		vals := make([]*Term, len(es))
+		same := true
+		for i := range es {
 			v, ok := es[i].heap[k]
 			if !ok {
 				v = init
 			}
-			if cur == nil {
-				cur = v
-			} else {
-				cur = ite(es[i].guard, v, cur)
+			vals[i] = v
+			if v.S != vals[0].S {
+				same = false
 			}
 		}
-		out.heap[k] = x.sc.def(cur, "Hm")
+		if same {
+			out.heap[k] = vals[0]
+			continue
+		}
+		// passive form: a fresh incarnation constrained per incoming edge (guarded
+		// equalities are much easier for the solvers than ite over arrays)
+		m := x.sc.fresh(x.heapSort[k], "Hm")
+		for i := range es {
+			x.sc.assume(implies(es[i].guard, eq(m, vals[i])))
+		}
+		out.heap[k] = m
 	}
 	var cur *Term
 	for i := len(es) - 1; i >= 0; i-- {
@@ -474,7 +504,8 @@ func (x *Exec) run(fn *ssa.Function, args []Val, bindings []Val, top bool) Val {
 	defer func() { x.stack = x.stack[:len(x.stack)-1] }()
 
 	fr := &Frame{fn: fn, env: map[ssa.Value]Val{}, bindings: bindings, out: map[*ssa.BasicBlock][]edgeState{}, top: top,
-		headSnap: map[*ssa.BasicBlock]*headSnapshot{}}
+		headSnap: map[*ssa.BasicBlock]*headSnapshot{}, tail: x.tailNext}
+	x.tailNext = false
 	for i, p := range fn.Params {
 		fr.env[p] = args[i]
 	}
@@ -619,6 +650,14 @@ func (x *Exec) execBlock(fr *Frame, b *ssa.BasicBlock) {
 			if fr.scratch != nil {
 				x.diffKeys(fr.scratch.base, x.st, fr.scratch.mod)
 				return
+			}
+			if (fr.top || fr.tail) && x.retHook != nil && len(x.scratches) == 0 {
+				// postconditions and frame are checked per return path (no merged state)
+				x.retHook(val)
+				x.retGuards = append(x.retGuards, x.st.guard)
+				if fr.tail {
+					return // the caller's "return f(...)" is this return
+				}
 			}
 			fr.rets = append(fr.rets, retState{st: x.st, val: val})
 			return
